@@ -84,17 +84,17 @@ Lin(t) ==
 
 Pred ==
   /\ IsEv("pred")
-  /\ LET e == Ev[l] IN
-     /\ pend[e.t].st = "retain" /\ pend[e.t].todo = None
-     \* the predicate is shown an entry that was in the map at some moment since the call
-     /\ \E x \in pend[e.t].ever : x[1] = e.k /\ (IsSet \/ x[3] = e.v)
-     \* sets: the inspected value instance is not observable; it is the one current at this point
-     \* (HashSet::insert of a present element replaces the unit value instance)
-     /\ pend' = [pend EXCEPT ![e.t].todo =
-                   IF e.keep = 0 THEN <<e.k, IF IsSet THEN abs[e.k].v ELSE e.v>> ELSE None,
-                                ![e.t].cnt = [@ EXCEPT ![e.k] = @ + 1]]
   /\ l' = l + 1
   /\ UNCHANGED <<tr, abs>>
+  /\ LET e == Ev[l] IN
+     /\ pend[e.t].st = "retain" /\ pend[e.t].todo = None
+     \* the predicate is shown an entry that was in the map at some moment since the call (the
+     \* traversal is weakly consistent: it may be an older value instance than the current one).
+     \* For sets the instance is not observable: any instance the key had since the call.
+     /\ \E x \in pend[e.t].ever :
+          /\ x[1] = e.k /\ (IsSet \/ x[3] = e.v)
+          /\ pend' = [pend EXCEPT ![e.t].todo = IF e.keep = 0 THEN <<e.k, x[3]>> ELSE None,
+                                   ![e.t].cnt = [@ EXCEPT ![e.k] = @ + 1]]
 
 RetainLin(t) ==
   /\ pend[t].st = "retain" /\ pend[t].todo # None
